@@ -404,3 +404,60 @@ def expand_calls(fi, tails):
     out.append(c)
   visit(fi.node.body, [])
   return out
+
+
+def table_bindings(fi, node):
+  """[{loop variable: cell}] for every row of the literal table(s) driving the
+  for loops that enclose `node` ([{}] when none does)."""
+  loops = []
+
+  def find(stmts, stack):
+    for st in stmts:
+      if st is node or any(x is node for x in ast.walk(st)) and not hasattr(st, 'body'):
+        loops.extend(stack)
+        return True
+      if isinstance(st, (ast.FunctionDef, ast.AsyncFunctionDef, ast.ClassDef)):
+        continue
+      inner = stack + [st] if isinstance(st, (ast.For, ast.AsyncFor)) else stack
+      if st is node:
+        loops.extend(stack)
+        return True
+      for f in ('body', 'orelse', 'finalbody'):
+        sub = getattr(st, f, None)
+        if isinstance(sub, list) and sub and isinstance(sub[0], ast.stmt):
+          if find(sub, inner if f == 'body' else stack):
+            return True
+      for h in getattr(st, 'handlers', []) or []:
+        if find(h.body, stack):
+          return True
+      # the node may sit in the header of a compound statement
+      for hn in (getattr(st, 'test', None), getattr(st, 'iter', None)):
+        if hn is not None and any(x is node for x in ast.walk(hn)):
+          loops.extend(stack)
+          return True
+    return False
+  find(fi.node.body, [])
+  out = [{}]
+  for lp in loops:
+    tbl = resolve_table(fi, lp.iter)
+    if tbl is None:
+      continue
+    tg = lp.target
+    tnames = [e.id if isinstance(e, ast.Name) else None
+              for e in (tg.elts if isinstance(tg, (ast.Tuple, ast.List)) else [tg])]
+    new = []
+    for b in out:
+      for row in tbl.elts:
+        cells = row.elts if isinstance(tg, (ast.Tuple, ast.List)) and \
+            isinstance(row, (ast.Tuple, ast.List)) else [row]
+        if len(cells) != len(tnames):
+          continue
+        b2 = dict(b)
+        b2.update({n: c for n, c in zip(tnames, cells) if n})
+        new.append(b2)
+    out = new or out
+  return out
+
+
+def bound(e, binding):
+  return binding.get(e.id, e) if isinstance(e, ast.Name) else e
